@@ -9,7 +9,8 @@ The transformation, in full:
   3. `EXPR as f64` becomes `f64::cast_from(EXPR)`;
   4. traits.rs keeps the primitive impls and gets Zero/One/Number/Signed for Sym appended;
   5. a fixed list of private helper fns is made `pub` so harnesses can call them;
-  6. `rng.gen::<f64>()` draws a primitive double and wraps it.
+  6. `rng.gen::<f64>()` draws a primitive double and wraps it;
+  7. Complex::sqrt / Complex::pow get a contract-stub hook as first statement (inert by default).
 Files are only rewritten when their content changes, so cargo rebuilds only on edits.
 """
 import os, re, sys, shutil
@@ -21,6 +22,13 @@ FLOAT = re.compile(r"(?<![\w.])(\d[\d_]*\.\d[\d_]*(?:[eE][+-]?\d+)?(?:_f64)?|\d[
 CAST_PAREN = re.compile(r"(\((?:[^()]|\([^()]*\))*\))\s*as\s+f64\b")
 CAST_IDENT = re.compile(r"\b([A-Za-z_][\w]*(?:\.[A-Za-z_]\w*)*)\s+as\s+f64\b")
 PUBLISH = re.compile(r"^(\s*)fn (quadratic_solve|cubic_solve|poly_solve|laguer|decompose|max_abs_in_column|backsolve|partial_pivot|gauss_with_pivot|identity_preconditioner|new_nonzero)\b", re.M)
+
+# contract-stub hooks (inert unless a harness switches the stub on): inserted on the same line as the
+# opening brace of the function so that line numbers are preserved
+STUB_HOOKS = [
+    (re.compile(r"pub fn sqrt\(&self\) -> Complex::<f64> \{"), 'if let Some((sr, si)) = symcore::stub_complex1("csqrt", self.real, self.imag) { return Complex::new(sr, si); }'),
+    (re.compile(r"pub fn pow\(&self, w: &Complex::<f64>\) -> Complex::<f64> \{"), 'if let Some((sr, si)) = symcore::stub_complex_pow(self.real, self.imag, w.real, w.imag) { return Complex::new(sr, si); }'),
+]
 
 TRAIT_IMPLS = """
 
@@ -72,6 +80,8 @@ def retype_source(text):
         lines.append("".join(pieces))
     text = "\n".join(lines)
     text = PUBLISH.sub(lambda m: m.group(1) + "pub fn " + m.group(2), text)
+    for pat, hook in STUB_HOOKS:
+        text = pat.sub(lambda m: m.group(0) + " " + hook, text)
     return text + ALIAS
 
 
